@@ -111,7 +111,7 @@ def overflow_type(prog, fn, at):
 def _inst(kind, I, key, prog=None):
     if kind == 'Overflow':
         if key[0].endswith(('GameState::pass', 'GameState::move_piece')) and prog is not None:
-            return 'Overflow(%s)' % overflow_type(prog, key[0], key[1])
+            return 'Overflow(%s)%s' % (overflow_type(prog, key[0], key[1]), turn_end_scope(I, key))
         return 'Overflow'
     return kind
 
@@ -127,11 +127,47 @@ def report_side_conditions(ctx, I, prop, fn_filter=None):
 
 
 # ------------------------------------------------------------------------------------------------ drivers
-def run_entry(ctx, I, fn, args_builder, label):
+def tagged(I, tag, thunk):
+    """Run `thunk` and remember under which engine mode (side, step, action kind) each failing assert was met."""
+    if tag is None:
+        return thunk()
+    saved = dict(I.asserts_bad)
+    I.asserts_bad.clear()
+    try:
+        return thunk()
+    finally:
+        modes = I.__dict__.setdefault('assert_modes', {})
+        for k in I.asserts_bad:
+            modes.setdefault(k, set()).add(tag)
+        for k, v in saved.items():
+            I.asserts_bad.setdefault(k, v)
+
+
+def turn_end_scope(I, key):
+    """'' when the failing assert is met only while Silver's turn ends (Silver passes or makes a fourth step) - the scope of
+    the known finding K1 - otherwise a qualifier naming the other situations."""
+    modes = getattr(I, 'assert_modes', {}).get(key)
+    if not modes:
+        return ''
+    other = set()
+    for (gold, step, kind) in modes:
+        ends = kind == 'Pass' or step == 3
+        if gold or not ends:
+            other.add('%s-%s' % ('gold' if gold else 'silver', 'end' if ends else 'mid'))
+    return ('@also:' + '+'.join(sorted(other))) if other else ''
+
+
+def action_kind(prog, act):
+    if isinstance(act, Enum):
+        return 'Pass' if act.var == inputs.enum_variant(prog, 'action::Action', 'Pass') else 'Move'
+    return 'Move'
+
+
+def run_entry(ctx, I, fn, args_builder, label, tag=None):
     st = State({})
     try:
         args = args_builder(I, st)
-        I.call_fn(fn, args, st)
+        tagged(I, tag, lambda: I.call_fn(fn, args, st))
         return True
     except Undecided as e:
         ctx.ob('[%s] interpretable' % label, False)
@@ -232,11 +268,12 @@ def check_c19(ctx, prog, tier):
                 acts.append(Enum('action::Action', move_v, (inputs.square(s), inputs.direction(prog, d))))
             if step >= 1 and not pending:
                 acts.append(pass_a)
+        gold_mode = ' gold' in desc
         for a in acts:
             for n in ('GameState::take_action', 'GameState::trapped_animal_for_action'):
                 nrun += run_entry(ctx, I, ent[n],
                                   lambda I_, st, a=a, gsv=gsv: [inputs.ref_to(I_, st, 'gs', gsv), inputs.ref_to(I_, st, 'act', a)],
-                                  '%s / %s' % (n, desc))
+                                  '%s / %s' % (n, desc), tag=None if setup else (gold_mode, step, action_kind(prog, a)))
         # every offered action (the items of the abstract list, under their own guard) is applied and previewed
         if not setup:
             from .rules_c01 import run_valid_actions
@@ -257,7 +294,8 @@ def check_c19(ctx, prog, tier):
                     def build(I_, st, act=act, gsv=gsv, gate=gate):
                         st.pc = (gate,) if gate is not C1 else ()
                         return [inputs.ref_to(I_, st, 'gs', gsv), inputs.ref_to(I_, st, 'act', act)]
-                    nrun += run_entry(ctx, I, ent[n], build, '%s(offered item) / %s' % (n, desc))
+                    nrun += run_entry(ctx, I, ent[n], build, '%s(offered item) / %s' % (n, desc),
+                                      tag=(gold_mode, step, action_kind(prog, act)))
         for i in range(0, (step if not setup else 0) + 1):
             nrun += run_entry(ctx, I, ent['GameState::piece_board_for_step'],
                               lambda I_, st, i=i, gsv=gsv: [inputs.ref_to(I_, st, 'gs', gsv), BV.const(i, 64)],
